@@ -208,7 +208,7 @@ pub static C04: SimpleProp = SimpleProp {
     level: "exploration",
     rule: "one evaluation = one compression (lzma_compress with each of the 3 header options, lzma2_compress, xz_compress) of a plaintext (lengths 0, 1, 65535, 65536, 65537, 2-3 x 64 KiB, small random; content: constant 0x00/0xFF, random, sparse, sawtooth, long runs with surprises, text-like, and inputs constructed by a guided search so that a carry resolves >= 4 pending 0xFF bytes in the range encoder) read through scripted short reads (1 byte, fixed k, random) or a real BufReader of capacity 1..70000; the output must decode to the input with (a) lzma-rs under the matching option, consuming every emitted byte, (b) the strict reference decoder/parser, (c) liblzma (LZMA2 wrapped into .xz by the reference writer; the header-less layout excepted); non-trivial = non-empty plaintext; distinct by (scenario, event log) hash",
     runs_quick: 40_000,
-    runs_thorough: 1_500_000,
+    runs_thorough: 4_000_000,
     both_profiles: false,
     assumptions: &[
         "WriteToHeader(Some(n)) is exercised with n = the true length (the matching option; the library documents that it does not verify n)",
